@@ -283,6 +283,35 @@ func ruleBatchBuffer(c *Ctx) {
 		}}, newSettledEv(sr, "flush", callMatcher(F(flush)))}, all, "a save returns success only with the region in the buffer and no failed flush")
 }
 
+// ruleWeightsAlwaysWritten: a store's weights are loaded back as "the key's
+// value, or 1.0 when there is no key"; so the last saved weight is loaded back
+// only if every SaveStoreWeight writes both keys — a value that is skipped
+// leaves the key of an earlier save in place.
+func ruleWeightsAlwaysWritten(c *Ctx) {
+	P := c.P
+	rule := c.Prop + "/weights-written"
+	fn := P.Method("server/core", "Storage", "SaveStoreWeight")
+	save := P.IMethod("server/kv", "Base", "Save")
+	written := func(pathFn string) Ev {
+		pf := F(P.Method("server/core", "Storage", pathFn))
+		return &calledEv{name: "Save(" + pathFn + "(id), …)", match: func(x ssa.Instruction) bool {
+			ci, ok := x.(ssa.CallInstruction)
+			if !ok || !save.Match(ci.Common()) {
+				return false
+			}
+			a := callArgs(ci.Common())
+			return len(a) == 2 && derivesFrom(a[0], resultOfCall(pf), 4)
+		}}
+	}
+	c.needOnSuccess(rule, fn, []Ev{written("storeLeaderWeightPath"), written("storeRegionWeightPath")}, all,
+		"both weight keys are written on every successful save, whatever the values")
+	// a forwarded error (return s.Save(...)) is the last write itself: the first key must have been written before it
+	c.need(rule, fn, "write of the region weight", func(x ssa.Instruction) bool {
+		ev := written("storeRegionWeightPath").(*calledEv)
+		return ev.match(x)
+	}, []Ev{written("storeLeaderWeightPath")}, all, "the leader weight was written first")
+}
+
 // ruleStorageErrorDiscipline: what PD loads back after a restart is what the
 // kv layer returned; a read or write error that is turned into "nothing there"
 // or "done" silently changes the reloaded state. Every function of
@@ -399,6 +428,7 @@ func init() {
 	register("C17", "Persisted stores and regions are loaded back completely and pruned consistently", func(c *Ctx) {
 		c.Group("C17/key-format", "all store/region key builders (storage, bootstrap, weights) render ids with the same zero-padded width and segments", func() { ruleKeyFormats(c) })
 		c.Group("C17/load-prunes", "loading deletes every region the callback reports from the backend being read, pages by last id + 1 and stops only on a short page; items live under their own id's key", func() { ruleLoadAndPrune(c) })
+		c.Group("C17/weights-written", "SaveStoreWeight writes both weight keys unconditionally", func() { ruleWeightsAlwaysWritten(c) })
 		c.Group("C17/storage-errors", "no storage function reports success after a kv call whose error was not found nil", func() { ruleStorageErrorDiscipline(c) })
 		c.Group("C17/backend-selection", "load, save and delete of region records select the backend by the same useRegionStorage test", func() { ruleRegionBackendSelection(c) })
 		c.Group("C17/batch-buffer", "region batch buffer: fields under its lock, written under the lock, emptied only after a successful write, flushed before close", func() { ruleBatchBuffer(c) })
